@@ -169,6 +169,7 @@ fn child(args: &[String]) {
             println!("C {k} {v}");
         }
         println!("C seeds.{fd:?}.{hs:?} 1");
+        println!("C seeds.extension.{:?} 1", seed.inst.options.field_extension());
         println!("X {}", J::obj(vec![("field", J::s(format!("{fd:?}"))), ("hasher", J::s(format!("{hs:?}"))), ("options", J::s(format!("{:?}", seed.inst.options))), ("shape", seed.inst.shape.json()), ("proof_bytes", J::i(seed.bytes.len())), ("mutants", J::i(mutants.len()))]).to_string());
         seed_idx += stride;
     }
